@@ -16,10 +16,8 @@ def num_field(rng, maxpos=MAXPOS):
         plus_lead = rng.random() < 0.18
         prefix = rng.choice(('', '', '', '', '', '$$', '**', '**$'))
         expo = rng.random() < 0.25
-        if expo and '$' in prefix:
-            # the manual rules out exponential form with $$: not generated
-            prefix = rng.choice(('', '**'))
-        budget = maxpos - len(prefix)
+        # digit positions = positions that can hold a digit: $$ gives 1 (the other is the $), ** 2, **$ 2
+        budget = maxpos - {'': 0, '$$': 1, '**': 2, '**$': 2}[prefix]
         t = rng.random()
         if t < 0.6:
             total = rng.randint(1, min(budget, 10))
@@ -110,7 +108,7 @@ def directed_fields():
             if ipos.endswith(',') and not dot:
                 continue
             for prefix in ('', '$$', '**', '**$'):
-                if len(ipos) + len(prefix) + dec > MAXPOS:
+                if len(ipos) + {'': 0, '$$': 1, '**': 2, '**$': 2}[prefix] + dec > MAXPOS:
                     continue
                 out.append(F(False, prefix, ipos, dot, dec, False, ''))
                 out.append(F(True, prefix, ipos, dot, dec, False, ''))
@@ -131,6 +129,19 @@ def directed_fields():
                         out.append(f)
     out.append(F(True, '', '', True, 3, True, ''))
     out.append(F(False, '', '', True, 3, True, '-'))
+    # $ with exponential form (only what the statement pins is judged there)
+    for prefix in ('$$', '**$'):
+        for ipos in ('#', '##', '#####'):
+            for dot, dec in ((False, 0), (True, 0), (True, 2), (True, 6)):
+                for pl, tr in ((False, ''), (True, ''), (False, '-')):
+                    out.append(F(pl, prefix, ipos, dot, dec, True, tr))
+    # exactly 24 digit positions with every prefix ($$ holds 1 digit, ** 2, **$ 2): must be accepted
+    for prefix, extra in (('', 0), ('$$', 1), ('**', 2), ('**$', 2)):
+        n = MAXPOS - extra
+        out.append(F(False, prefix, '#' * n, False, 0, False, ''))
+        out.append(F(False, prefix, '#' * (n - 10), True, 10, False, ''))
+        out.append(F(True, prefix, '#' * (n - 2), True, 2, False, ''))
+        out.append(F(False, prefix, '#' * (n - 4), True, 4, True, '-'))
     return out
 
 
